@@ -29,6 +29,8 @@ def sub_strategy(S):
         mk('dict', st.lists(st.tuples(hsh, small).map(list), max_size=4).map(lambda kv: ['dict', kv])),
         mk('str', S['r_str']),
         mk('bytes', S['r_bytes']),
+        st.tuples(st.sampled_from(['ci', 'eqonly']), S['r_str']).map(lambda p: ['sub', 'str', p[0], p[1]]),
+        st.tuples(st.sampled_from(['ci', 'eqonly']), S['r_bytes']).map(lambda p: ['sub', 'bytes', p[0], p[1]]),
         mk('int', S['r_int']),
         mk('float', S['r_float']),
         st.sampled_from(vtypes.INT_ENUM_VALUES).map(lambda v: ['sub', 'int', 'enum', ['int', v]]),
